@@ -4,7 +4,7 @@ from __future__ import annotations
 from sa.terms import C, CallT, Elem, P, Sub, is_call, show, show_fact
 from sa.walker import State
 
-from . import fn_site, validators
+from . import fn_site, refuted_at_defaults, validators
 from .vs import forall_bodies
 
 EXPLANATION = (
@@ -167,6 +167,8 @@ def run(ctx):
             accepting = p.kind == "return" and not (kind == "hexpred" and p.value == C(False))
             if p.kind == "raise":
                 facts |= set(p.value.conds)
+            if refuted_at_defaults(eng, q, (sm.params[0],), facts):
+                continue  # only with a non-default value of an optional parameter the grammar does not speak about
             st = State(facts=facts)
             if accepting:
                 n_acc += 1
@@ -223,6 +225,8 @@ def predicate_exact(eng, q, kind, n=None):
         facts = set(p.facts)
         if p.kind == "raise":
             facts |= set(p.value.conds)
+        if refuted_at_defaults(eng, q, (sm.params[0],), facts):
+            continue
         st = State(facts=facts)
         if p.kind == "return" and p.value == C(True):
             n_true += 1
@@ -257,6 +261,8 @@ def raiser_exact(eng, q, kind, n=None):
         facts = set(p.facts)
         if p.kind == "raise":
             facts |= set(p.value.conds)
+        if refuted_at_defaults(eng, q, (sm.params[0],), facts):
+            continue
         st = State(facts=facts)
         if p.kind == "return":
             n_acc += 1
